@@ -27,16 +27,24 @@ func c16Program() *hs.Program {
 			hs.Fn("sub", intT, hs.Blk(hs.Bin("-", hs.V("a"), hs.V("b"))), hs.P("a", intT), hs.P("b", intT)),
 			hs.Fn("inc", intT, hs.Blk(hs.V("counter"), hs.ES(hs.Asg("+=", hs.V("counter"), hs.I(1))))),
 			hs.Fn("get", intT, hs.Blk(hs.V("counter"))),
-			// returns from inside a loop inside a try
+			// returns from inside a loop inside TWO nested tries (every handler the function installed
+			// has to go when it returns)
 			hs.Fn("early", intT, hs.Blk(hs.I(-1),
 				hs.LetS("i", hs.I(0)),
 				&hs.Loop{Body: hs.Blk(nil,
 					hs.ES(&hs.Try{Body: hs.Blk(nil,
-						hs.ES(&hs.If{Cond: hs.Bin("==", hs.V("i"), hs.V("n")), Then: hs.Blk(nil, &hs.Return{X: hs.Bin("*", hs.V("i"), hs.I(10))})}),
-						hs.ES(hs.Asg("+=", hs.V("i"), hs.I(1))),
-					), Var: "e", Catch: hs.Blk(nil)}),
+						hs.ES(&hs.Try{Body: hs.Blk(nil,
+							hs.ES(&hs.If{Cond: hs.Bin("==", hs.V("i"), hs.V("n")), Then: hs.Blk(nil, &hs.Return{X: hs.Bin("*", hs.V("i"), hs.I(10))})}),
+							hs.ES(hs.Asg("+=", hs.V("i"), hs.I(1))),
+						), Var: "inner", Catch: hs.Blk(nil, &hs.Return{X: hs.I(-3)})}),
+					), Var: "e", Catch: hs.Blk(nil, &hs.Return{X: hs.I(-2)})}),
 				)},
 			), hs.P("n", intT)),
+			// the caller throws inside its own try after a callee has returned from inside nested tries
+			hs.Fn("viacallee", intT, hs.Blk(&hs.Try{
+				Body:  hs.Blk(hs.I(1), hs.ES(hs.CallN("early", hs.I(0))), hs.ES(hs.CallN("throw", hs.S("after")))),
+				Var:   "e",
+				Catch: hs.Blk(hs.Bin("+", hs.I(1100), hs.V("counter")))})),
 			hs.Fn("boom", intT, hs.Blk(hs.I(1), hs.ES(hs.CallN("throw", hs.S("bad"))))),
 			hs.Fn("deep", intT, hs.Blk(&hs.If{Cond: hs.Bin("==", hs.V("n"), hs.I(0)), Then: hs.Blk(hs.I(0)), Else: hs.Blk(hs.Bin("+", hs.I(1), hs.CallN("deep", hs.Bin("-", hs.V("n"), hs.I(1)))))}), hs.P("n", intT)),
 			hs.Fn("obj", objT, hs.Blk(&hs.ObjLit{Fields: []hs.ObjField{{Name: "a", X: hs.V("counter")}, {Name: "b", X: hs.S("x")}}})),
@@ -81,7 +89,7 @@ func (c hostCall) String() string {
 
 var c16Alphabet = []hostCall{
 	{"sub", []int64{1, 0}}, {"sub", []int64{0, 1}}, {"inc", nil}, {"get", nil}, {"early", []int64{0}}, {"early", []int64{2}},
-	{"boom", nil}, {"deep", []int64{0}}, {"deep", []int64{3}}, {"obj", nil}, {"caught", nil}, {"launch", nil}, {"getdone", nil},
+	{"boom", nil}, {"viacallee", nil}, {"deep", []int64{3}}, {"obj", nil}, {"caught", nil}, {"launch", nil}, {"getdone", nil},
 	{"firstover", []int64{15}}, {"firstover", []int64{5}}, {"grow", nil},
 }
 
